@@ -36,6 +36,9 @@ func init() {
 		func(c *Ctx) {
 			c.load("dot/state")
 			c.ruleLoopProg()
+			c.ruleLockPairing("R-LOCKPAIR", "dot/state")
+			c.ruleEpochKeyRoles()
+			c.ruleConfigFallback()
 			c.min("R-LOOPPROG", 2)
 			c.min("R-FORKDATA", 2)
 		})
@@ -52,6 +55,7 @@ func init() {
 			c.ruleChangePrune()
 			c.ruleUnfinalizedAncestor()
 			c.ruleForcedFilter()
+			c.ruleSetStart()
 			c.min("R-FORCEDPRUNE", 4)
 		})
 }
@@ -564,6 +568,7 @@ func init() {
 			c.load("dot/state")
 			c.ruleEquivocation()
 			c.ruleSlotWindow()
+			c.ruleFreshDecodeDest("R-FRESHDEST", "dot/state", "(*SlotState).CheckEquivocation")
 			c.min("R-EQUIVOC", 8)
 		})
 	register("C25", "resolved-callee/ordering rule for the secondary-slot author (R-SECONDARY) and guard/constant rules (R-THRESHOLDGUARDS) and operation-tree equality (R-FORMULA) of the threshold computation",
